@@ -1,15 +1,24 @@
 /-
 C12 — The stub file declares exactly the functions the assembly defines.
-Proved over the structured lines handed to go/format (`printStubs`); the
-signature text is an opaque token.  Validity, gofmt-stability, type identity
-and linkability of the formatted file are measured by the harness.
+Proved over the structured lines handed to go/format (`printStubs`) and, under
+explicit token hypotheses (`WFStubs`: no newline in any token, `Stub()` is
+`func NAME(`…), over the BYTES of that text (part 2); the signature text is an
+opaque token.  Part 3: the acceptors the driver runs on the real (formatted)
+output are sound for declarative statements, and accept the model's own text.
+Validity, gofmt-stability, type identity and linkability of the formatted file
+are measured by the harness (go/format and go/types are not modelled).
 -/
-import AvoVerif.Props.C11
+import AvoVerif.Props.C11Text
+import AvoVerif.Model.Stubs
 namespace Avo.Print
 open Avo.Attr
 
 /-- **same constraints.** The constraint block of the stub file is the same
-function of the file as the one of the assembly file. -/
+function of the file as the one of the assembly file.  (True by definition of
+the MODEL — both printers are modelled with the one function `constraintLines`;
+that the two real printers agree is what `accept-cons`/`acceptCons_sound` judge
+on every generated pair, and the `stubs`/`print` differentials tie each printer
+to the model.) -/
 theorem stub_constraints_eq (f : File) : stubConstraints f = asmConstraints f := rfl
 
 /-- Both printers put the block right after the generated-code comment. -/
@@ -181,5 +190,584 @@ example : (render (printStubs ⟨"avo".toList, none, ['p']⟩ exStubFile)) =
 example : parseStubs (printStubs ⟨"avo".toList, none, ['p']⟩ exStubFile) =
     some (['p'], [⟨["f does it.".toList, []], [⟨"noescape".toList, []⟩, ⟨"linkname".toList, [['f'], "p.g".toList]⟩],
                    "func f(x uint64)".toList⟩, ⟨[], [], "func g()".toList⟩]) := by decide
+
+/-! ## 2. Acceptors on real output: declarative statements and soundness -/
+
+theorem splitNL_nonl (t : Txt) : ∀ l ∈ splitNL t, NoNL l := by
+  induction t with
+  | nil => intro l hl; simp [splitNL] at hl; subst hl; exact nonl_nil
+  | cons c cs ih =>
+    intro l hl
+    simp only [splitNL] at hl
+    split at hl
+    · rcases List.mem_cons.1 hl with h | h
+      · subst h; exact nonl_nil
+      · exact ih l h
+    · rename_i hc
+      split at hl
+      · rename_i he; exact absurd he (splitNL_ne_nil cs)
+      · rename_i h t' he
+        rcases List.mem_cons.1 hl with h1 | h1
+        · subst h1
+          have : NoNL h := ih h (by rw [he]; simp)
+          exact nonl_cons.2 ⟨hc, this⟩
+        · exact ih l (by rw [he]; exact List.mem_cons_of_mem _ h1)
+
+/-- A text whose last line (after the final newline) is empty is the
+concatenation of its newline-terminated lines. -/
+theorem splitNL_join (t : Txt) (ls : List Txt) (h : splitNL t = ls ++ [[]]) :
+    t = ls.flatMap (· ++ ['\n']) := by
+  induction t generalizing ls with
+  | nil =>
+    cases ls with
+    | nil => rfl
+    | cons a as => simp [splitNL] at h
+  | cons c cs ih =>
+    simp only [splitNL] at h
+    split at h
+    · rename_i hc
+      cases ls with
+      | nil => simp at h; exact absurd h (splitNL_ne_nil cs)
+      | cons a as =>
+        simp only [List.cons_append, List.cons.injEq] at h
+        rw [← h.1, ih as h.2, hc]; rfl
+    · split at h
+      · rename_i he; exact absurd he (splitNL_ne_nil cs)
+      · rename_i hd tl he
+        cases ls with
+        | nil => simp at h
+        | cons a as =>
+          simp only [List.cons_append, List.cons.injEq] at h
+          have := ih (hd :: as) (by rw [he, h.2]; rfl)
+          rw [this, ← h.1]; rfl
+
+theorem textLines?_spec (out : Txt) (ls : List Txt) (h : textLines? out = some ls) :
+    out = ls.flatMap (· ++ ['\n']) ∧ ∀ l ∈ ls, NoNL l := by
+  unfold textLines? at h
+  simp only at h
+  split at h
+  · rename_i hl
+    have hls : ls = (splitNL out).dropLast := by simpa using h.symm
+    obtain ⟨ys, hys⟩ := List.getLast?_eq_some_iff.1 hl
+    have hd : (splitNL out).dropLast = ys := by rw [hys]; simp
+    refine ⟨splitNL_join out ls (by rw [hls, hd]; exact hys), ?_⟩
+    intro l hm
+    rw [hls] at hm
+    exact splitNL_nonl out l (List.dropLast_subset _ hm)
+  · simp at h
+
+/-- **Declarative statement judged on the real stub file.** The text is a
+sequence of newline-terminated lines; exactly one line starts with `package `
+and names the configured package; the build-constraint lines of the header are
+the file's; the lines starting with `func ` declare — in this order, each
+once — exactly the names of the file's functions; the directive lines of the
+comment block directly above each are exactly the function's directives. -/
+def StubTextOK (cfg : Config) (f : File) (out : Txt) : Prop :=
+  ∃ ls : List Txt, out = ls.flatMap (· ++ ['\n']) ∧ (∀ l ∈ ls, NoNL l) ∧
+    pkgClauses ls = [cfg.pkg] ∧ headerConstraints ls = f.constraints ∧
+    (funcDecls ls []).map (·.1) = f.functions.map (·.name) ∧
+    (funcDecls ls []).map (·.2) = f.functions.map pragmaLines
+
+/-- **acceptStubs_sound.** -/
+theorem acceptStubs_sound (cfg : Config) (f : File) (out : Txt)
+    (h : acceptStubs cfg f out = "ok") : StubTextOK cfg f out := by
+  unfold acceptStubs at h
+  split at h
+  · simp at h
+  · rename_i ls hls
+    obtain ⟨h1, h2⟩ := textLines?_spec out ls hls
+    split at h
+    · simp at h
+    · rename_i hp
+      split at h
+      · simp at h
+      · rename_i hc
+        simp only at h
+        split at h
+        · simp at h
+        · rename_i hd
+          split at h
+          · simp at h
+          · rename_i hg
+            exact ⟨ls, h1, h2, by simpa using hp, by simpa using hc, by simpa using hd, by simpa using hg⟩
+
+/-- Both outputs carry the same constraint lines, and they are the file's. -/
+def SameConstraints (f : File) (asm stub : Txt) : Prop :=
+  headerConstraints (splitNL asm) = headerConstraints (splitNL stub) ∧
+  headerConstraints (splitNL stub) = f.constraints
+
+/-- **acceptCons_sound.** -/
+theorem acceptCons_sound (f : File) (asm stub : Txt) (h : acceptCons f asm stub = "ok") :
+    SameConstraints f asm stub := by
+  unfold acceptCons at h
+  simp only at h
+  split at h
+  · simp at h
+  · rename_i h1
+    split at h
+    · simp at h
+    · rename_i h2
+      have e1 : headerConstraints (splitNL asm) = headerConstraints (splitNL stub) := by simpa using h1
+      exact ⟨e1, by rw [← e1]; simpa using h2⟩
+
+/-! ## 3. The model's own text, read as bytes (under explicit token hypotheses) -/
+
+theorem trimRight_prefix (x : Txt) : ∃ s, x = trimRight x ++ s := by
+  unfold trimRight
+  refine ⟨(x.reverse.takeWhile isGoSpace).reverse, ?_⟩
+  have := List.takeWhile_append_dropWhile (p := isGoSpace) (l := x.reverse)
+  have h2 := congrArg List.reverse this
+  simp only [List.reverse_append, List.reverse_reverse] at h2
+  exact h2.symm
+
+theorem trimRight_append_nonspace (a : Txt) (c : Char) (t : Txt) (h : isGoSpace c = false) :
+    trimRight (a ++ c :: t) = a ++ c :: trimRight t := by
+  unfold trimRight
+  rw [List.reverse_append, List.reverse_cons, List.append_assoc, List.dropWhile_append]
+  split
+  · rename_i he
+    have : List.dropWhile isGoSpace t.reverse = [] := by simpa using he
+    simp [this, h]
+  · simp
+
+/-- A comment line is `//` or starts with `// `. -/
+theorem commentText_shape (t : Txt) :
+    commentText t = ['/', '/'] ∨ ∃ r, commentText t = '/' :: '/' :: ' ' :: r := by
+  unfold commentText
+  rw [trimRight_cons _ _ (by decide), trimRight_cons _ _ (by decide)]
+  obtain ⟨s, hs⟩ := trimRight_prefix (' ' :: t)
+  cases h : trimRight (' ' :: t) with
+  | nil => left; rfl
+  | cons c r =>
+    right
+    rw [h] at hs
+    simp only [List.cons_append, List.cons.injEq] at hs
+    exact ⟨r, by rw [← hs.1]⟩
+
+/-- Facts about one rendered line used by the readers below:
+(starts with `//`, is a directive, declares a function, is a package clause). -/
+structure LineFacts (l : Txt) (sl dir : Bool) : Prop where
+  slashes : hasPrefix kwSlashes l = sl
+  directive : hasPrefix kwDirective l = dir
+  nofunc : stripPrefix kwFunc l = none
+  nopkg : stripPrefix kwPackage l = none
+
+theorem facts_blank : LineFacts [] false false := ⟨rfl, rfl, rfl, rfl⟩
+
+theorem facts_comment (t : Txt) : LineFacts (commentText t) true false := by
+  rcases commentText_shape t with h | ⟨r, h⟩ <;> rw [h] <;>
+    exact ⟨by simp [hasPrefix, kwSlashes, stripPrefix], by simp [hasPrefix, kwDirective, stripPrefix],
+      by simp [kwFunc, stripPrefix], by simp [kwPackage, stripPrefix]⟩
+
+theorem facts_pragma (d : Txt) (as : List Txt) : LineFacts (pragmaText d as) true true := by
+  unfold pragmaText
+  exact ⟨by simp [hasPrefix, kwSlashes, stripPrefix], by simp [hasPrefix, kwDirective, stripPrefix],
+    by simp [kwFunc, stripPrefix], by simp [kwPackage, stripPrefix]⟩
+
+theorem facts_of_slashes (l : Txt) (h : hasPrefix kwSlashes l = true) :
+    stripPrefix kwFunc l = none ∧ stripPrefix kwPackage l = none := by
+  obtain ⟨r, hr⟩ := slashes_of_strip l (by simpa [hasPrefix, kwSlashes] using h)
+  subst hr
+  exact ⟨by simp [kwFunc, stripPrefix], by simp [kwPackage, stripPrefix]⟩
+
+theorem hasPrefix_of_append (a b t : Txt) (h : hasPrefix (a ++ b) t = true) : hasPrefix a t = true := by
+  induction a generalizing t with
+  | nil => simp [hasPrefix, stripPrefix]
+  | cons x xs ih =>
+    cases t with
+    | nil => simp [hasPrefix, stripPrefix] at h
+    | cons y ys =>
+      simp only [hasPrefix, List.cons_append, stripPrefix] at h ⊢
+      split
+      · rename_i he; rw [if_pos he] at h; exact ih ys h
+      · rename_i he; rw [if_neg he] at h; simp at h
+
+theorem slashes_of_constraint (l : Txt) (h : isConstraintLine l = true) : hasPrefix kwSlashes l = true := by
+  unfold isConstraintLine at h
+  have h' : hasPrefix kwGoBuild l = true ∨ hasPrefix kwPlusBuild l = true := by simpa using h
+  rcases h' with h | h
+  · exact hasPrefix_of_append kwSlashes ['g', 'o', ':', 'b', 'u', 'i', 'l', 'd'] l h
+  · exact hasPrefix_of_append kwSlashes [' ', '+', 'b', 'u', 'i', 'l', 'd'] l h
+
+/-! funcDecls over blocks of lines -/
+
+theorem funcDecls_append (a b rev : List Txt) :
+    funcDecls (a ++ b) rev = funcDecls a rev ++ funcDecls b (a.reverse ++ rev) := by
+  induction a generalizing rev with
+  | nil => rfl
+  | cons l ls ih =>
+    simp only [List.cons_append, funcDecls]
+    split <;> simp [ih, List.reverse_cons, List.append_assoc]
+
+theorem funcDecls_nofunc (a rev : List Txt) (h : ∀ l ∈ a, stripPrefix kwFunc l = none) :
+    funcDecls a rev = [] := by
+  induction a generalizing rev with
+  | nil => rfl
+  | cons l ls ih =>
+    simp only [funcDecls, h l List.mem_cons_self]
+    exact ih _ (fun x hx => h x (List.mem_cons_of_mem _ hx))
+
+theorem takeWhile_block (p : Txt → Bool) (a : List Txt) (y : Txt) (zs : List Txt)
+    (ha : ∀ x ∈ a, p x = true) (hy : p y = false) : (a ++ y :: zs).takeWhile p = a := by
+  induction a with
+  | nil => simp [hy]
+  | cons x xs ih =>
+    have hx := ha x List.mem_cons_self
+    simp [hx, ih (fun z hz => ha z (List.mem_cons_of_mem _ hz))]
+
+/-- The rendered lines of one function of the stub file. -/
+def fnLines (fn : Function) : List Txt :=
+  [[]] ++ fn.doc.map commentText ++ pragmaLines fn ++ [fn.stub]
+
+theorem fnLines_eq (fn : Function) : (stubFunction fn).map renderLine = fnLines fn := by
+  simp [stubFunction, fnLines, pragmaLines, renderLine, Function.comp_def]
+
+/-- Token hypotheses of one function: no newline in any token, and `Stub()` is
+`func NAME(`…, the declared identifier being the function's (TEXT symbol) name. -/
+structure WFStubFn (fn : Function) : Prop where
+  doc : ∀ d ∈ fn.doc, NoNL d
+  prag : ∀ p ∈ fn.pragmas, NoNL p.directive ∧ ∀ a ∈ p.args, NoNL a
+  name : '(' ∉ fn.name
+  stub : ∃ rest, fn.stub = kwFunc ++ fn.name ++ '(' :: rest
+  stub_nonl : NoNL fn.stub
+
+theorem directivesAbove_fn (fn : Function) (rev : List Txt) :
+    directivesAbove ((pragmaLines fn).reverse ++ ((fn.doc.map commentText).reverse ++ ([] :: rev))) = pragmaLines fn := by
+  unfold directivesAbove commentsAbove
+  rw [← List.append_assoc]
+  rw [takeWhile_block (hasPrefix kwSlashes) _ [] rev ?_ rfl]
+  · rw [List.filter_append, List.reverse_append]
+    have h1 : ((fn.doc.map commentText).reverse.filter (hasPrefix kwDirective)) = [] := by
+      apply List.filter_eq_nil_iff.2
+      intro l hl
+      obtain ⟨d, _, rfl⟩ := List.mem_map.1 (List.mem_reverse.1 hl)
+      simp [(facts_comment d).directive]
+    have h2 : ((pragmaLines fn).reverse.filter (hasPrefix kwDirective)) = (pragmaLines fn).reverse := by
+      apply List.filter_eq_self.2
+      intro l hl
+      obtain ⟨p, _, rfl⟩ := List.mem_map.1 (List.mem_reverse.1 hl)
+      exact (facts_pragma p.directive p.args).directive
+    rw [h1, h2]; simp
+  · intro l hl
+    rcases List.mem_append.1 hl with h | h
+    · obtain ⟨p, _, rfl⟩ := List.mem_map.1 (List.mem_reverse.1 h)
+      exact (facts_pragma p.directive p.args).slashes
+    · obtain ⟨d, _, rfl⟩ := List.mem_map.1 (List.mem_reverse.1 h)
+      exact (facts_comment d).slashes
+
+/-- One function block, read back: one declaration of the function's name with
+exactly its directives, whatever precedes the block. -/
+theorem funcDecls_fnLines (fn : Function) (h : WFStubFn fn) (rev : List Txt) :
+    funcDecls (fnLines fn) rev = [(fn.name, pragmaLines fn)] := by
+  obtain ⟨rest, hs⟩ := h.stub
+  unfold fnLines
+  rw [funcDecls_append, funcDecls_nofunc]
+  · simp only [List.nil_append, funcDecls]
+    rw [hs, List.append_assoc, stripPrefix_append]
+    simp only
+    have ht := (takeWhile_stop notParen fn.name '(' rest
+      (fun x hx => by simp only [notParen, bne_iff_ne, ne_eq]; intro e; exact h.name (e ▸ hx)) (by simp [notParen])).1
+    rw [ht]
+    simp only [List.reverse_append, List.reverse_cons, List.append_assoc, List.singleton_append]
+    rw [directivesAbove_fn]
+  · intro l hl
+    simp only [List.mem_append, List.mem_singleton, List.mem_map] at hl
+    rcases hl with (rfl | ⟨d, _, rfl⟩) | hp
+    · rfl
+    · exact (facts_comment d).nofunc
+    · obtain ⟨p, _, rfl⟩ := List.mem_map.1 hp
+      exact (facts_pragma p.directive p.args).nofunc
+
+theorem funcDecls_functions (fns : List Function) (h : ∀ fn ∈ fns, WFStubFn fn) (rev : List Txt) :
+    funcDecls (fns.flatMap fnLines) rev = fns.map (fun fn => (fn.name, pragmaLines fn)) := by
+  induction fns generalizing rev with
+  | nil => rfl
+  | cons fn fns ih =>
+    rw [List.flatMap_cons, funcDecls_append, funcDecls_fnLines fn (h fn List.mem_cons_self),
+      ih (fun g hg => h g (List.mem_cons_of_mem _ hg))]
+    rfl
+
+/-- Token hypotheses of a whole stub file: no newline in any token; the
+constraint lines are `//go:build` / `// +build` lines (what `buildtags.Format`
+returns), none when the file has no constraints; every function as above. -/
+structure WFStubs (cfg : Config) (f : File) : Prop where
+  cfgname : NoNL cfg.name
+  argv : ∀ a ∈ cfg.argv.getD [], NoNL a
+  pkg : NoNL cfg.pkg
+  cons : ∀ c ∈ f.constraints, NoNL c ∧ isConstraintLine c = true
+  nocons : f.hasConstraints = false → f.constraints = []
+  fns : ∀ fn ∈ f.functions, WFStubFn fn
+
+/-- The lines of the stub text before the first function. -/
+def headerLines (cfg : Config) (f : File) : List Txt :=
+  [commentText (generatedWarning cfg)] ++ (if f.hasConstraints then [] :: f.constraints else []) ++
+    [[], kwPackage ++ cfg.pkg]
+
+theorem stubLines_eq (cfg : Config) (f : File) :
+    (printStubs cfg f).map renderLine = headerLines cfg f ++ f.functions.flatMap fnLines := by
+  unfold printStubs stubConstraints constraintLines headerLines
+  simp only [List.map_append, List.map_flatMap, fnLines_eq]
+  split <;> simp [renderLine, kwPackage, Function.comp_def]
+
+theorem nonl_fnLines (fn : Function) (h : WFStubFn fn) : ∀ l ∈ fnLines fn, NoNL l := by
+  intro l hl
+  simp only [fnLines, List.mem_append, List.mem_singleton, List.mem_map] at hl
+  rcases hl with ((rfl | ⟨d, hd, rfl⟩) | hp) | rfl
+  · exact nonl_nil
+  · exact nonl_commentText d (h.doc d hd)
+  · obtain ⟨p, hq, rfl⟩ := List.mem_map.1 hp
+    unfold pragmaText
+    refine nonl_append.2 ⟨nonl_append.2 ⟨by simp [NoNL], (h.prag p hq).1⟩, ?_⟩
+    exact nonl_flatMap_cons ' ' (by decide) _ (h.prag p hq).2
+  · exact h.stub_nonl
+
+theorem nonl_stubLines (cfg : Config) (f : File) (h : WFStubs cfg f) :
+    ∀ l ∈ headerLines cfg f ++ f.functions.flatMap fnLines, NoNL l := by
+  intro l hl
+  rcases List.mem_append.1 hl with hh | hf
+  · simp only [headerLines, List.mem_append, List.mem_cons, List.not_mem_nil, or_false] at hh
+    rcases hh with (rfl | hc) | (rfl | rfl)
+    · exact nonl_commentText _ (nonl_generatedWarning cfg h.cfgname h.argv)
+    · split at hc
+      · rcases List.mem_cons.1 hc with rfl | hc
+        · exact nonl_nil
+        · exact (h.cons l hc).1
+      · simp at hc
+    · exact nonl_nil
+    · exact nonl_append.2 ⟨by simp [NoNL, kwPackage], h.pkg⟩
+  · obtain ⟨fn, hfn, hl⟩ := List.mem_flatMap.1 hf
+    exact nonl_fnLines fn (h.fns fn hfn) l hl
+
+/-- **stub_text_lines.** The BYTES of the stub text split at newlines into the
+header lines followed by one block per function (blank line, doc lines,
+directives, `Stub()` line), and end with a newline. -/
+theorem stub_text_lines (cfg : Config) (f : File) (h : WFStubs cfg f) :
+    textLines? (render (printStubs cfg f)) = some (headerLines cfg f ++ f.functions.flatMap fnLines) := by
+  have hn : ∀ l ∈ printStubs cfg f, NoNL (renderLine l) := by
+    intro l hl
+    apply nonl_stubLines cfg f h
+    rw [← stubLines_eq]
+    exact List.mem_map.2 ⟨l, hl, rfl⟩
+  unfold textLines?
+  simp only [splitNL_render _ hn, stubLines_eq]
+  simp
+
+theorem pkgClauses_none (a : List Txt) (h : ∀ l ∈ a, stripPrefix kwPackage l = none) : pkgClauses a = [] := by
+  unfold pkgClauses
+  exact List.filterMap_eq_nil_iff.2 h
+
+theorem headerConstraints_block (cs tl : List Txt) (h : ∀ c ∈ cs, isConstraintLine c = true) :
+    headerConstraints (cs ++ tl) = cs ++ headerConstraints tl := by
+  induction cs with
+  | nil => rfl
+  | cons c cs ih =>
+    have hc := h c List.mem_cons_self
+    simp only [List.cons_append, headerConstraints, slashes_of_constraint c hc, hc, Bool.or_true, Bool.true_or,
+      if_true]
+    rw [ih (fun x hx => h x (List.mem_cons_of_mem _ hx))]
+    rfl
+
+theorem warning_not_constraint (cfg : Config) : isConstraintLine (commentText (generatedWarning cfg)) = false := by
+  have : ∃ r, generatedWarning cfg = 'C' :: r := ⟨_, rfl⟩
+  obtain ⟨r, hr⟩ := this
+  unfold commentText
+  rw [hr, show ('/' :: '/' :: ' ' :: 'C' :: r) = ['/', '/', ' '] ++ 'C' :: r from rfl,
+    trimRight_append_nonspace _ _ _ (by decide)]
+  simp [isConstraintLine, hasPrefix, kwGoBuild, kwPlusBuild, stripPrefix]
+
+theorem nofunc_fnLines_pkg (fn : Function) (h : WFStubFn fn) : ∀ l ∈ fnLines fn, stripPrefix kwPackage l = none := by
+  intro l hl
+  simp only [fnLines, List.mem_append, List.mem_singleton, List.mem_map] at hl
+  rcases hl with ((rfl | ⟨d, _, rfl⟩) | hp) | rfl
+  · rfl
+  · exact (facts_comment d).nopkg
+  · obtain ⟨p, _, rfl⟩ := List.mem_map.1 hp
+    exact (facts_pragma p.directive p.args).nopkg
+  · obtain ⟨rest, hs⟩ := h.stub
+    rw [hs]; simp [kwFunc, kwPackage, stripPrefix]
+
+/-- The `func` lines of the whole stub text: one per function, in file order. -/
+theorem funcDecls_stubLines (cfg : Config) (f : File) (h : WFStubs cfg f) :
+    funcDecls (headerLines cfg f ++ f.functions.flatMap fnLines) [] =
+      f.functions.map (fun fn => (fn.name, pragmaLines fn)) := by
+    rw [funcDecls_append, funcDecls_functions _ h.fns, funcDecls_nofunc, List.nil_append]
+    intro l hl
+    simp only [headerLines, List.mem_append, List.mem_cons, List.not_mem_nil, or_false] at hl
+    rcases hl with (rfl | hc) | (rfl | rfl)
+    · exact (facts_comment _).nofunc
+    · split at hc
+      · rcases List.mem_cons.1 hc with rfl | hc
+        · rfl
+        · exact (facts_of_slashes l (slashes_of_constraint l (h.cons l hc).2)).1
+      · simp at hc
+    · rfl
+    · simp [kwFunc, kwPackage, stripPrefix]
+
+/-- **acceptStubs_model.** For every file satisfying the token hypotheses, the
+acceptor accepts the BYTES of the model's stub text (the input of go/format). -/
+theorem acceptStubs_model (cfg : Config) (f : File) (h : WFStubs cfg f) :
+    acceptStubs cfg f (render (printStubs cfg f)) = "ok" := by
+  unfold acceptStubs
+  rw [stub_text_lines cfg f h]
+  have hpkgline : stripPrefix kwPackage (kwPackage ++ cfg.pkg) = some cfg.pkg := stripPrefix_append _ _
+  -- package clause
+  have h1 : pkgClauses (headerLines cfg f ++ f.functions.flatMap fnLines) = [cfg.pkg] := by
+    have hF : pkgClauses (f.functions.flatMap fnLines) = [] := by
+      apply pkgClauses_none
+      intro l hl
+      obtain ⟨fn, hfn, hl⟩ := List.mem_flatMap.1 hl
+      exact nofunc_fnLines_pkg fn (h.fns fn hfn) l hl
+    have hC : pkgClauses (if f.hasConstraints then [] :: f.constraints else []) = [] := by
+      apply pkgClauses_none
+      intro l hl
+      split at hl
+      · rcases List.mem_cons.1 hl with rfl | hl
+        · rfl
+        · exact (facts_of_slashes l (slashes_of_constraint l (h.cons l hl).2)).2
+      · simp at hl
+    unfold pkgClauses at hF hC ⊢
+    simp only [headerLines, List.filterMap_append, hF, hC, List.filterMap_cons, List.filterMap_nil,
+      (facts_comment (generatedWarning cfg)).nopkg, hpkgline]
+    rfl
+  -- constraint lines of the header
+  have hpk : headerConstraints ((kwPackage ++ cfg.pkg) :: f.functions.flatMap fnLines) = [] := by
+    simp [headerConstraints, kwPackage, hasPrefix, kwSlashes, kwInclude, stripPrefix]
+  have h2 : headerConstraints (headerLines cfg f ++ f.functions.flatMap fnLines) = f.constraints := by
+    unfold headerLines
+    simp only [List.append_assoc, List.cons_append, List.nil_append]
+    rw [headerConstraints]
+    simp only [(facts_comment (generatedWarning cfg)).slashes, warning_not_constraint, Bool.or_true, Bool.true_or,
+      if_true, Bool.false_eq_true, if_false, List.nil_append]
+    cases hc : f.hasConstraints with
+    | true =>
+      simp only [if_true, List.cons_append]
+      rw [headerConstraints]
+      simp only [List.isEmpty_nil, Bool.true_or, if_true]
+      have e0 : isConstraintLine [] = false := rfl
+      simp only [e0, Bool.false_eq_true, if_false, List.nil_append]
+      rw [headerConstraints_block _ _ (fun c hc => (h.cons c hc).2), headerConstraints]
+      simp only [List.isEmpty_nil, Bool.true_or, if_true, e0, Bool.false_eq_true, if_false, List.nil_append, hpk]
+      simp
+    | false =>
+      simp only [Bool.false_eq_true, if_false, List.nil_append]
+      rw [headerConstraints]
+      have e0 : isConstraintLine [] = false := rfl
+      simp only [List.isEmpty_nil, Bool.true_or, if_true, e0, Bool.false_eq_true, if_false, List.nil_append, hpk]
+      exact (h.nocons hc).symm
+  have h3 := funcDecls_stubLines cfg f h
+  simp [h1, h2, h3, Function.comp_def]
+
+/-- **stub_text_reads_back.** For every file satisfying the token hypotheses
+the bytes of the stub text are newline-terminated lines, with exactly one
+package clause (the configured one), the file's constraint lines in the header,
+and `func` lines declaring — each once, in file order — exactly the names of
+the file's functions, each with exactly its directives directly above it. -/
+theorem stub_text_reads_back (cfg : Config) (f : File) (h : WFStubs cfg f) :
+    StubTextOK cfg f (render (printStubs cfg f)) :=
+  acceptStubs_sound cfg f _ (acceptStubs_model cfg f h)
+
+/-- **stub_names_are_text_symbols.** Read from the bytes, the identifiers the
+stub file declares are exactly the symbols of the assembly file's TEXT lines,
+in the same order (declared ⇔ defined, at the level of the two pre-format
+outputs). -/
+theorem stub_names_are_text_symbols (names) (cfg : Config) (f : File) (h : WFStubs cfg f) :
+    ∃ ls, textLines? (render (printStubs cfg f)) = some ls ∧
+      (funcDecls ls []).map (·.1) = (textLines (printFile names cfg f)).map (·.1) := by
+  refine ⟨_, stub_text_lines cfg f h, ?_⟩
+  have h3 := funcDecls_stubLines cfg f h
+  rw [h3, one_text_per_fn]
+  simp [Function.header, Function.comp_def]
+
+/-! Non-vacuity, and the NEGATIVE witness of findings C12-doc-newline -/
+
+def exCfg : Config := ⟨"avo".toList, none, ['p']⟩
+
+def exFn (name : String) (sig : String) (doc : List String) (pragmas : List Pragma) : Function :=
+  { name := name.toList, attrs := 0#16, frame := 0, args := 0, isa := [],
+    stub := ("func " ++ name ++ sig).toList, doc := doc.map String.toList, pragmas := pragmas, nodes := [] }
+
+def exTextFile : File :=
+  ⟨true, ["//go:build amd64".toList], [],
+   [.fn (exFn "f" "(x uint64) uint64" ["f does it.", ""] [⟨"noescape".toList, []⟩]), .fn (exFn "g" "()" [] [])]⟩
+
+theorem exTextFile_wf : WFStubs exCfg exTextFile := by
+  refine ⟨by decide, by decide, by decide, by decide, by decide, ?_⟩
+  intro fn hfn
+  simp only [exTextFile, File.functions, List.filterMap_cons, List.filterMap_nil, List.mem_cons,
+    List.not_mem_nil, or_false] at hfn
+  rcases hfn with rfl | rfl
+  · exact ⟨by decide, by decide, by decide, ⟨"x uint64) uint64".toList, by decide⟩, by decide⟩
+  · exact ⟨by decide, by decide, by decide, ⟨")".toList, by decide⟩, by decide⟩
+
+example : StubTextOK exCfg exTextFile (render (printStubs exCfg exTextFile)) :=
+  stub_text_reads_back _ _ exTextFile_wf
+
+set_option maxRecDepth 8000 in
+example : acceptStubs exCfg exTextFile
+    ("// Code generated by avo. DO NOT EDIT.\n\n//go:build amd64\n\npackage p\n\n// f does it.\n//\n//go:noescape\nfunc f(x uint64) uint64\n\nfunc g()\n").toList = "ok" := by
+  decide
+
+set_option maxRecDepth 8000 in
+example : acceptCons exTextFile
+    ("// Code generated by avo. DO NOT EDIT.\n\n//go:build amd64\n\n#include \"textflag.h\"\n\n// func g()\nTEXT ·g(SB), NOSPLIT, $0\n\tRET\n").toList
+    ("// Code generated by avo. DO NOT EDIT.\n\n//go:build amd64\n\npackage p\n\nfunc g()\n").toList = "ok" := by
+  decide
+
+/-- The witness of finding C12-doc-newline: `Doc("f doc", "x\nfunc zz()")`. -/
+def exNewlineFile : File :=
+  ⟨false, [], [], [.fn (exFn "f" "(x uint64) uint64" ["f doc", "x\nfunc zz()"] [])]⟩
+
+/-- **newline_injects_declaration** (negative witness; the hypothesis `WFStubFn.doc`
+of `stub_text_reads_back` cannot be dropped): with a newline inside a doc line the
+bytes of the stub text declare `zz` and `f`, although the file — and hence the
+assembly — has the single function `f`; at the level of structured lines nothing
+is wrong (`parse_stubs` still reads one declaration). -/
+theorem newline_injects_declaration :
+    (∃ ls, textLines? (render (printStubs exCfg exNewlineFile)) = some ls ∧
+      (funcDecls ls []).map (·.1) = ["zz".toList, "f".toList]) ∧
+    exNewlineFile.functions.map (·.name) = ["f".toList] ∧
+    acceptStubs exCfg exNewlineFile (render (printStubs exCfg exNewlineFile)) = "bad-declarations" := by
+  refine ⟨⟨_, rfl, ?_⟩, by decide, ?_⟩ <;> decide
+
+/-! The executable hypotheses check run by the driver (`wf-stubs`) is sound. -/
+
+theorem noNLb_iff (t : Txt) : noNLb t = true ↔ NoNL t := by
+  simp [noNLb, NoNL]
+
+theorem stripPrefix_sound (p t r : Txt) (h : stripPrefix p t = some r) : t = p ++ r := by
+  induction p generalizing t with
+  | nil => simp [stripPrefix] at h; simp [h]
+  | cons a p ih =>
+    cases t with
+    | nil => simp [stripPrefix] at h
+    | cons b t =>
+      simp only [stripPrefix] at h
+      split at h
+      · rename_i he; rw [he, ih t h]; rfl
+      · simp at h
+
+theorem wfStubFnB_sound (fn : Function) (h : wfStubFnB fn = true) : WFStubFn fn := by
+  simp only [wfStubFnB, Bool.and_eq_true, List.all_eq_true, Bool.not_eq_true', Option.isSome_iff_exists] at h
+  obtain ⟨⟨⟨⟨hd, hp⟩, hn⟩, ⟨rest, hs⟩⟩, hst⟩ := h
+  refine ⟨fun d hm => (noNLb_iff d).1 (hd d hm), ?_, by simpa using hn, ⟨rest, ?_⟩, (noNLb_iff _).1 hst⟩
+  · intro p hm
+    have := hp p hm
+    exact ⟨(noNLb_iff _).1 this.1, fun a ha => (noNLb_iff a).1 (this.2 a ha)⟩
+  · have := stripPrefix_sound _ _ _ hs
+    rw [this]; simp [List.append_assoc]
+
+/-- **wfStubsB_sound.** -/
+theorem wfStubsB_sound (cfg : Config) (f : File) (h : wfStubsB cfg f = true) : WFStubs cfg f := by
+  simp only [wfStubsB, Bool.and_eq_true, List.all_eq_true, Bool.or_eq_true, List.isEmpty_iff] at h
+  obtain ⟨⟨⟨⟨⟨h1, h2⟩, h3⟩, h4⟩, h5⟩, h6⟩ := h
+  refine ⟨(noNLb_iff _).1 h1, fun a ha => (noNLb_iff a).1 (h2 a ha), (noNLb_iff _).1 h3,
+    fun c hc => ⟨(noNLb_iff c).1 (h4 c hc).1, (h4 c hc).2⟩, ?_, fun fn hfn => wfStubFnB_sound fn (h6 fn hfn)⟩
+  intro hf
+  rcases h5 with h5 | h5
+  · rw [hf] at h5; simp at h5
+  · exact h5
+
+example : wfStubsB exCfg exTextFile = true := by decide
+example : wfStubsB exCfg exNewlineFile = false := by decide
 
 end Avo.Print
